@@ -115,7 +115,7 @@ def match_stages(mode, depth, pathlen, sample=None):
     st = []
     if inv:
         st.append({'kind': 'mc', 'name': 'm-' + mode, 'module': 'MC_Match', 'consts': dict(c, Depth=0), 'invariants': inv, 'workers': 8})
-    st.append({'kind': 'gen', 'name': 'g-' + mode, 'module': 'MC_Match', 'consts': c, 'trace': 'Trace_Match', 'sample': sample, 'min_per_shard': 1})
+    st.append({'kind': 'gen', 'name': 'g-' + mode + (str(depth) if depth > 2 else ''), 'module': 'MC_Match', 'consts': c, 'trace': 'Trace_Match', 'sample': sample, 'min_per_shard': 1})
     return st
 
 
